@@ -152,6 +152,39 @@ Definition delta_set_bytes (wdc rc : Z) (data : list Z) (inner : Z) : list Z :=
   let d := if (length data <? offset)%nat then [] else skipn offset data in
   read_items (Z.to_nat rc) 0 (Z.land wdc 32767) (negb (Z.land wdc 32768 =? 0)) d.
 
+(* ItemVariationData as parsed by read-fonts: itemCount, wordDeltaCount, regionIndexes and the delta_sets bytes
+   (whose length the parser fixes to delta_sets_len = delta_row_len * itemCount) *)
+Record rawsub := { rs_item_count : Z; rs_wdc : Z; rs_regions : list Z; rs_data : list Z }.
+
+(* ItemVariationStore::compute_delta on the raw subtables: delta_set(inner) is decoded from the bytes for ANY header
+   values (word count beyond the region count, LONG_WORDS, inner index beyond the data) *)
+Definition compute_delta_raw (regions : list region) (subs : list (option rawsub)) (outer inner : Z)
+           (coords : list Z) : res Z :=
+  match coords with
+  | [] => Ok 0
+  | _ =>
+      match nth_error subs (Z.to_nat outer) with
+      | None => Err
+      | Some None => Ok 0
+      | Some (Some rs) =>
+          let row := delta_set_bytes (rs_wdc rs) (Z.of_nat (length (rs_regions rs))) (rs_data rs) inner in
+          match delta_accum regions (rs_regions rs) row coords 0 with
+          | Ok accum => match chk_s 64 (accum + 32768) with
+                        | None => Panic
+                        | Some a => Ok (wrap_s 32 (Z.shiftr a 16))
+                        end
+          | Err => Err
+          | Panic => Panic
+          end
+      end
+  end.
+
+(* the decoded view the harness extracts through delta_set, as a function of the raw subtable *)
+Definition decode_rawsub (rs : rawsub) : subtable :=
+  {| st_item_count := rs_item_count rs; st_wdc := rs_wdc rs; st_regions := rs_regions rs;
+     st_rows := map (fun i => delta_set_bytes (rs_wdc rs) (Z.of_nat (length (rs_regions rs))) (rs_data rs) (Z.of_nat i))
+                    (seq 0 (Z.to_nat (rs_item_count rs))) |}.
+
 (* ---- DeltaSetIndexMap::get ---- *)
 Definition read_be_at (data : list Z) (off size : nat) : option Z :=
   if (length data <? off + size)%nat then None else Some (from_be (firstn size (skipn off data))).
@@ -217,6 +250,86 @@ Definition metric_with_delta (base : Z) (delta : res Z) : option Z :=
 Definition scale_apply (scale value : Z) : Z := fixed_mul_div scale value 64.
 Definition metric_unscaled (base : Z) (delta : res Z) : option Z :=
   do v <- metric_with_delta base delta ;; Some (scale_apply 4194304 v).
+
+(* ---- the metrics glue: read-fonts hvar.rs / variations.rs advance_delta, item_delta; skrifa metrics.rs GlyphMetrics ---- *)
+Definition dsim := (Z * Z * list Z)%type.                  (* entryFormat byte, mapCount, mapData *)
+Record hvar_tbl := { hv_store : store; hv_adv_map : option dsim; hv_lsb_map : option dsim }.
+(* hmtx long metrics (advance u16, lsb i16), trailing lsb array, maxp glyph count, head unitsPerEm *)
+Record metrics_font := { mf_glyph_count : Z; mf_upem : Z; mf_h_metrics : list (Z * Z); mf_lsbs : list Z;
+                         mf_hvar : option hvar_tbl }.
+
+Definition dsim_lookup (m : dsim) (gid : Z) : option (Z * Z) := let '(fmt, mc, data) := m in dsim_get fmt mc data gid.
+
+Definition delta_at (h : hvar_tbl) (ix : option (Z * Z)) (coords : list Z) : res Z :=
+  match ix with
+  | None => Err
+  | Some (o, i) => match compute_delta (hv_store h) o i coords with
+                   | Ok d => Ok (fixed_from_i32 d)
+                   | Err => Err
+                   | Panic => Panic
+                   end
+  end.
+(* variations.rs advance_delta: no (readable) map => implicit index (outer 0, inner gid as u16) *)
+Definition advance_delta (h : hvar_tbl) (gid : Z) (coords : list Z) : res Z :=
+  match coords with
+  | [] => Ok 0
+  | _ => delta_at h (match hv_adv_map h with Some m => dsim_lookup m gid | None => Some (0, wrap_u 16 gid) end) coords
+  end.
+(* variations.rs item_delta: no map => Err(NullOffset) *)
+Definition lsb_delta (h : hvar_tbl) (gid : Z) (coords : list Z) : res Z :=
+  match coords with
+  | [] => Ok 0
+  | _ => match hv_lsb_map h with Some m => delta_at h (dsim_lookup m gid) coords | None => Err end
+  end.
+
+(* skrifa instance.rs LocationRef::effective_coords: the default location is the empty slice *)
+Definition effective_coords (coords : list Z) : list Z := if forallb (Z.eqb 0) coords then [] else coords.
+(* skrifa instance.rs Size::fixed_linear_scale; ppem64 = (ppem * 64.) as i32, None = Size::unscaled() *)
+Definition fixed_linear_scale (ppem64 : option Z) (upem : Z) : Z :=
+  match ppem64 with
+  | Some p => if 0 <? upem then fixed_div p upem else 4194304
+  | None => 4194304
+  end.
+
+(* metric += delta.to_f64() as i32 (truncation), .unwrap_or(0) on a ReadError; checked i32 add *)
+Definition add_delta (base : Z) (d : res Z) : option Z :=
+  match d with
+  | Ok x => chk_s 32 (base + Z.quot x 65536)
+  | Err => Some base
+  | Panic => None
+  end.
+
+(* skrifa metrics.rs GlyphMetrics::advance_width for a font with HVAR or without gvar; result: None = panic,
+   Some None = `None`, Some (Some bits) = raw 16.16 bits of the value that is then converted with to_f32 *)
+Definition advance_width (f : metrics_font) (scale : Z) (gid : Z) (coords : list Z) : option (option Z) :=
+  if mf_glyph_count f <=? gid then Some None
+  else
+    let default_advance := match mf_h_metrics f with [] => 0 | m :: r => fst (last r m) end in
+    let advance := match nth_error (mf_h_metrics f) (Z.to_nat gid) with Some m => fst m | None => default_advance end in
+    match (match mf_hvar f with
+           | Some h => add_delta advance (advance_delta h gid (effective_coords coords))
+           | None => Some advance
+           end) with
+    | None => None
+    | Some a => Some (Some (scale_apply scale a))
+    end.
+
+(* GlyphMetrics::left_side_bearing *)
+Definition left_side_bearing (f : metrics_font) (scale : Z) (gid : Z) (coords : list Z) : option (option Z) :=
+  if mf_glyph_count f <=? gid then Some None
+  else
+    let n := Z.of_nat (length (mf_h_metrics f)) in
+    let lsb := match nth_error (mf_h_metrics f) (Z.to_nat gid) with
+               | Some m => snd m
+               | None => nth (Z.to_nat (Z.max 0 (gid - n))) (mf_lsbs f) 0     (* saturating_sub; unwrap_or_default *)
+               end in
+    match (match mf_hvar f with
+           | Some h => add_delta lsb (lsb_delta h gid (effective_coords coords))
+           | None => Some lsb
+           end) with
+    | None => None
+    | Some a => Some (Some (scale_apply scale a))
+    end.
 
 (* ================= 3. VariationStoreBuilder ================= *)
 
@@ -374,14 +487,17 @@ Definition encode_encoding (sets : list dset) (e : enc) : option subtable :=
                    st_rows := map (fun id => encode_row (fst e) (nth (Z.to_nat id) sets [])) ids |}
   end.
 
-(* Encoding::iter_split_into_table_size_chunks / split_off_back (MAX_ITEMS = 0xFFFF) *)
+(* Encoding::iter_split_into_table_size_chunks / split_off_back:
+     const MAX_ITEMS: usize = 0xFFFF;  if self.deltas.len() <= MAX_ITEMS { return None }  else split_off(MAX_ITEMS)
+   — an encoding with EXACTLY 0xFFFF rows is one subtable; the tail of a split is never empty *)
+Definition MAX_ITEMS : Z := 65535.
 Fixpoint chunks (fuel : nat) (n : nat) (l : list Z) : list (list Z) :=
   match fuel with
   | O => [l]
   | S f => if (length l <=? n)%nat then [l] else firstn n l :: chunks f n (skipn n l)
   end.
 Definition split_encs (encs : list enc) : list enc :=
-  flat_map (fun e => map (fun c => (fst e, c)) (chunks (length (snd e)) (Z.to_nat 65535) (snd e))) encs.
+  flat_map (fun e => map (fun c => (fst e, c)) (chunks (length (snd e)) (Z.to_nat MAX_ITEMS) (snd e))) encs.
 
 (* key_map entries written by Encoding::encode for subtable index i *)
 Fixpoint keys_of (sub : Z) (j : Z) (ids : list Z) : list (Z * (Z * Z)) :=
@@ -553,12 +669,16 @@ Inductive case : Type :=
 | CScalar (axes : region) (coords : list Z) (out : Z)
 | CDelta (s : store) (outer inner : Z) (coords : list Z) (out : list Z)   (* [v] Ok, [] Err *)
 | CRow (wdc rc : Z) (data : list Z) (inner : Z) (out : list Z)
+| CDeltaRaw (regions : list region) (subs : list (option rawsub)) (outer inner : Z) (coords : list Z) (out : list Z)
 | CDsim (fmt map_count : Z) (data : list Z) (index : Z) (out : list Z)    (* [outer; inner] or [] *)
 | CPack (mapping : list Z) (fmt map_count : Z) (data : list Z)
 | CMetric (base : Z) (delta : Z) (out : Z)
 | CBuild (direct : bool) (inputs : list (list (region * Z))) (ids : list Z)
          (partition : list (list Z)) (out : store) (remap : list (Z * (Z * Z)))
-| CRowBytes (sh : list Z) (ds : dset) (out : list Z).
+| CRowBytes (sh : list Z) (ds : dset) (out : list Z)
+| CChunks (sizes : list Z) (out : list Z)
+(* queries: (gid, coords, advance bits, lsb bits); -999999 = `None`, -888888 = not compared (f32 inexact) *)
+| CFontMetrics (f : metrics_font) (ppem64 : option Z) (queries : list (Z * list Z * Z * Z)).        (* row counts of the encodings, in order; item counts of the subtables, -1 = NULL *)
 
 Definition opt_out (o : option Z) : list Z := match o with Some v => [v] | None => [] end.
 
@@ -611,11 +731,26 @@ Definition check_case (c : case) : bool :=
       | Panic => zl_eqb [-999] out
       end
   | CRow wdc rc data inner out => zl_eqb (delta_set_bytes wdc rc data inner) out
+  | CDeltaRaw regions subs o i coords out =>
+      match compute_delta_raw regions subs o i coords with
+      | Ok v => zl_eqb [v] out
+      | Err => zl_eqb [] out
+      | Panic => zl_eqb [-999] out
+      end
   | CDsim fmt mc data index out =>
       zl_eqb (match dsim_get fmt mc data index with Some (o, i) => [o; i] | None => [] end) out
   | CPack mapping fmt mc data =>
       let '(f, c, d) := pack_map_data mapping in (f =? fmt) && (c =? mc) && zl_eqb d data
   | CMetric base delta out => zl_eqb (opt_out (metric_unscaled base (Ok delta))) [out]
   | CBuild direct inputs ids partition out remap => check_build direct inputs ids partition out remap
+  | CFontMetrics f ppem64 queries =>
+      let scale := fixed_linear_scale ppem64 (mf_upem f) in
+      let enc (r : option (option Z)) := match r with Some (Some b) => b | Some None => -999999 | None => -777777 end in
+      forallb (fun q => let '(gid, coords, a, l) := q in
+                        ((a =? -888888) || (enc (advance_width f scale gid coords) =? a))
+                        && ((l =? -888888) || (enc (left_side_bearing f scale gid coords) =? l))) queries
   | CRowBytes sh ds out => zl_eqb (row_bytes sh O (encode_row sh ds)) out
+  | CChunks sizes out =>
+      zl_eqb (map (fun e => match encode_encoding [] e with Some st => st_item_count st | None => -1 end)
+                  (split_encs (map (fun n => ([], repeat 0 (Z.to_nat n))) sizes))) out
   end.
